@@ -177,6 +177,7 @@ impl Engine for OrswotEng {
     type O = O;
     const NAME: &'static str = "orswot";
     const HAS_RESET: bool = true;
+    const HAS_CTX: bool = true;
 
     fn new_state() -> S {
         Orswot::new()
